@@ -1,6 +1,6 @@
 #include "scenarios.h"
-extern const Scenario scen_c12pool;
+extern const Scenario scen_c12pool, scen_c11mt, scen_c07mt, scen_c13oom;
 const Scenario* const g_scenarios[] = {
-    &scen_c12pool,
+    &scen_c12pool, &scen_c11mt, &scen_c07mt, &scen_c13oom,
     NULL
 };
